@@ -65,13 +65,48 @@ def pin_host_stack():
     sys.setrecursionlimit(n + HOST_STACK_HEADROOM)
 
 
+class RealTimeGuard(W.WorkCap):
+    """Raised by SIGALRM when one eval takes absurdly long in *real* time although simulated work
+    hardly advances (a native operation on a gigantic operand: repr of a huge object graph, ...).
+    Counts as 'did not return' exactly like the work cap; the bound is far above any legitimate
+    run (12 s + 2.5 s per million cap units; a legitimate eval does well over 300 k units per second)."""
+
+
+_guard_depth = [0]
+
+
+def _alarm(signum, frame):
+    W.S.cap = W.S.work           # everything after this point is over the cap too
+    W.S.next_at = W.S.work
+    raise RealTimeGuard(W.S.work)
+
+
 def run_eval(ctx, src, cap_extra, track=None):
     """Evaluate src on ctx under a work cap. Returns a dict describing the outcome."""
     S = W.S
     pin_host_stack()
+    import signal
+    import threading
+    armed = False
+    if _guard_depth[0] == 0 and threading.current_thread() is threading.main_thread():
+        signal.signal(signal.SIGALRM, _alarm)
+        signal.setitimer(signal.ITIMER_REAL, 12.0 + cap_extra / 400_000.0)
+        armed = True
+    _guard_depth[0] += 1
+    try:
+        return _run_eval(ctx, src, cap_extra, track)
+    finally:
+        _guard_depth[0] -= 1
+        if armed:
+            signal.setitimer(signal.ITIMER_REAL, 0)
+
+
+def _run_eval(ctx, src, cap_extra, track=None):
+    S = W.S
     start_work = S.work
     start_now = W.now()
-    W.set_cap(start_work + cap_extra)
+    prev_cap = S.cap                       # evals nest (re-entrant host callables, twins run at
+    W.set_cap(min(prev_cap, start_work + cap_extra))   # ack time): an inner eval never lifts the outer cap
     reads0 = S.clock_reads
     W.log("op_invoke", "eval", sha1(src)[:12])
     out = {}
@@ -94,7 +129,7 @@ def run_eval(ctx, src, cap_extra, track=None):
             if not isinstance(e, (Exception, W.WorkCap)):
                 raise
     finally:
-        W.set_cap(W.INF)
+        W.set_cap(prev_cap)
     out["start_work"] = start_work
     out["end_work"] = S.work
     out["start_now"] = start_now
